@@ -186,6 +186,13 @@ EXPLORE.update({
            "list; all/3 has no answer in worlds without solutions. One known finding (order of the elements under negation, "
            "the same class as C13's).",
 })
+EXPLORE.update({
+    "C20": "Run-time contract on mpe_maxsat and mpe_semiring, called the way the mpe task calls them, against exhaustive "
+           "enumeration of the worlds that satisfy the evidence (exact rationals): the returned literals describe an assignment "
+           "that satisfies the evidence, is most probable, and has the reported probability (relative 1e-3); zero-probability "
+           "evidence is reported as unsatisfiable. The MaxSAT mode holds (one defect repaired); the hidden --use-semiring mode "
+           "has five listed known findings.",
+})
 FUNCTION_LEVEL = ("C11", "C13", "C14", "C18", "C17")
 FN_BOUNDED_TECH = ("run-time contract (pre/post-condition against an independent reference) on the real functions over a "
                    "bounded input family; the deductive contracts planned for these functions were not built, so nothing "
